@@ -109,6 +109,36 @@ func (e *Engine) stub(fn *ssa.Function, args []any) (any, bool) {
 		before := fmt.Sprintf("(ite %s (str.substr %s 0 %s) %s)", found, s, idx, s)
 		after := fmt.Sprintf("(ite %s (str.substr %s (+ %s (str.len %s)) (- (str.len %s) (+ %s (str.len %s)))) \"\")", found, s, idx, sep, s, idx, sep)
 		return Tuple{SymStr{before}, SymStr{after}, SymBool{found}}, true
+	case "strings.CutPrefix":
+		sv, pv := strE(args[0]), strE(args[1])
+		found := "(str.prefixof " + pv + " " + sv + ")"
+		after := fmt.Sprintf("(ite %s (str.substr %s (str.len %s) (- (str.len %s) (str.len %s))) %s)", found, sv, pv, sv, pv, sv)
+		return Tuple{SymStr{after}, SymBool{found}}, true
+	case "strings.CutSuffix":
+		sv, pv := strE(args[0]), strE(args[1])
+		found := "(str.suffixof " + pv + " " + sv + ")"
+		before := fmt.Sprintf("(ite %s (str.substr %s 0 (- (str.len %s) (str.len %s))) %s)", found, sv, sv, pv, sv)
+		return Tuple{SymStr{before}, SymBool{found}}, true
+	case "strings.HasSuffix":
+		return SymBool{"(str.suffixof " + strE(args[1]) + " " + strE(args[0]) + ")"}, true
+	case "strings.TrimSuffix":
+		sv, pv := strE(args[0]), strE(args[1])
+		return SymStr{fmt.Sprintf("(ite (str.suffixof %s %s) (str.substr %s 0 (- (str.len %s) (str.len %s))) %s)", pv, sv, sv, sv, pv, sv)}, true
+	case "strings.Repeat":
+		if a, ok := args[0].(string); ok {
+			if n, ok := args[1].(int64); ok && n >= 0 && n < 1<<20 {
+				return strings.Repeat(a, int(n)), true
+			}
+		}
+		return nil, false
+	case "slices.Contains[[]string string]", "slices.Contains":
+		va := args[0].(SliceV)
+		for i := 0; i < va.len; i++ {
+			if e.branch(e.binop(tokenEQL, (*va.arr)[va.off+i], args[1], nil)) {
+				return true, true
+			}
+		}
+		return false, true
 	case "strings.Contains":
 		if a, ok := args[0].(string); ok {
 			if b, ok := args[1].(string); ok {
